@@ -14,6 +14,7 @@ import (
 	sgabi "github.com/google/go-sev-guest/abi"
 	spb "github.com/google/go-sev-guest/proto/sevsnp"
 	tabi "github.com/google/go-tdx-guest/abi"
+	tpb "github.com/google/go-tdx-guest/proto/tdx"
 	"google.golang.org/protobuf/encoding/protowire"
 	"google.golang.org/protobuf/proto"
 
@@ -215,5 +216,108 @@ func buildQuote(k quoteKind, m, blob []byte, variant int) []byte {
 	case "tpm-attestation-no-tee":
 		return tpmWrap(0, nil)
 	}
+	if b, ok := buildExtraQuote(k, m, blob); ok {
+		return b
+	}
 	panic("unknown quote kind " + k.name)
+}
+
+// ---- quote kinds outside the precedence product (used by the families appended after it) ----
+
+// extraQuoteKinds: (1) recognised formats whose measurement field is NOT 48 bytes long (the m handed
+// to buildQuote has the odd length): full=false, so no URL may be derived from them, and ext=false,
+// so nothing is demanded about an entry; (2) equivalent encodings of documented formats - the same
+// message with its fields in another order or with padded length varints, hex digits in upper
+// case, base64 broken into lines - with the same expectations as the plain encoding.
+var extraQuoteKinds = []quoteKind{
+	{"snp-report-proto:odd-measurement", "snp", false, false, true},
+	{"snp-attestation-proto:odd-measurement", "snp", false, false, true},
+	{"tpm-attestation-snp:odd-measurement", "snp", false, false, true},
+	{"tpm-attestation-tdx:odd-mrtd", "tdx", false, false, true},
+	{"snp-attestation-proto:chain-first", "snp", true, true, true},
+	{"snp-attestation-proto:padded-lengths", "snp", true, true, true},
+	{"tpm-attestation-snp:tee-first", "snp", true, true, true},
+	{"snp-raw-report+table-HEX", "snp", true, true, true},
+	{"snp-raw-report+table-base64-lines", "snp", true, true, true},
+	{"tdx-raw-HEX", "tdx", true, false, true},
+}
+
+func extraKind(name string) quoteKind {
+	for _, k := range extraQuoteKinds {
+		if k.name == name {
+			return k
+		}
+	}
+	panic("unknown extra quote kind " + name)
+}
+
+// appendPaddedVarint writes v as a five-byte varint (legal, not minimal).
+func appendPaddedVarint(b []byte, v uint64) []byte {
+	for i := 0; i < 4; i++ {
+		b = append(b, byte(v&0x7f)|0x80)
+		v >>= 7
+	}
+	return append(b, byte(v&0x7f))
+}
+
+func upperHex(b []byte) string {
+	const digits = "0123456789ABCDEF"
+	o := make([]byte, 0, 2*len(b))
+	for _, x := range b {
+		o = append(o, digits[x>>4], digits[x&15])
+	}
+	return string(o)
+}
+
+func buildExtraQuote(k quoteKind, m, blob []byte) ([]byte, bool) {
+	oddSnp := func() *spb.Attestation {
+		at := snpProto(make([]byte, 48), nil)
+		at.Report.Measurement = append([]byte{}, m...)
+		return at
+	}
+	switch k.name {
+	case "snp-report-proto:odd-measurement":
+		return mustMarshal(oddSnp().Report), true
+	case "snp-attestation-proto:odd-measurement":
+		return mustMarshal(oddSnp()), true
+	case "tpm-attestation-snp:odd-measurement":
+		return tpmWrap(8, mustMarshal(oddSnp())), true
+	case "tpm-attestation-tdx:odd-mrtd":
+		q, err := tabi.QuoteToProto(gen.TdxQuote(make([]byte, 48)))
+		if err != nil {
+			panic(err)
+		}
+		q4 := q.(*tpb.QuoteV4)
+		q4.TdQuoteBody.MrTd = append([]byte{}, m...)
+		return tpmWrap(9, mustMarshal(q4)), true
+	case "snp-attestation-proto:chain-first", "snp-attestation-proto:padded-lengths":
+		at := snpProto(m, blob)
+		rep, cc := mustMarshal(at.Report), mustMarshal(at.CertificateChain)
+		var b []byte
+		if k.name == "snp-attestation-proto:chain-first" {
+			b = protowire.AppendBytes(protowire.AppendTag(b, 2, protowire.BytesType), cc)
+			b = protowire.AppendBytes(protowire.AppendTag(b, 1, protowire.BytesType), rep)
+			return b, true
+		}
+		b = append(appendPaddedVarint(protowire.AppendTag(b, 1, protowire.BytesType), uint64(len(rep))), rep...)
+		b = append(appendPaddedVarint(protowire.AppendTag(b, 2, protowire.BytesType), uint64(len(cc))), cc...)
+		return b, true
+	case "tpm-attestation-snp:tee-first":
+		b := protowire.AppendBytes(protowire.AppendTag(nil, 8, protowire.BytesType), mustMarshal(snpProto(m, blob)))
+		b = protowire.AppendBytes(protowire.AppendTag(b, 6, protowire.BytesType), []byte("not-a-certificate"))
+		return b, true
+	case "snp-raw-report+table-HEX":
+		return []byte(upperHex(append(rawReport(m), certTable(blob)...))), true
+	case "snp-raw-report+table-base64-lines":
+		s := base64.StdEncoding.EncodeToString(append(rawReport(m), certTable(blob)...))
+		var o []byte
+		for len(s) > 76 {
+			o = append(append(o, s[:76]...), '\n')
+			s = s[76:]
+		}
+		return append(append(o, s...), '\n'), true
+	case "tdx-raw-HEX":
+		return []byte(upperHex(gen.TdxQuote(m))), true
+	}
+	return nil, false
 }
